@@ -30,6 +30,11 @@ REF_TO_NOT = re.compile(r"&\s*\w+\s*=\s*!\s*(true|false)\b")
 REFLECTION = re.compile(r"\b(parse|get_parse_tree|call_exists)\b|\.children|\.text\b|AST_Node")
 
 
+def big_ints(x):
+    """the model computes in unbounded integers: runs that leave the int range are outside what it speaks about (C05 covers arithmetic)"""
+    return any(abs(int(v)) >= 2 ** 30 for v in re.findall(r"i(-?\d+)", x))
+
+
 def strip_tags(x):
     return " ".join(p for p in x.split(" ") if not p.startswith("tags="))
 
@@ -73,6 +78,8 @@ def run(ctx):
     # ---- (1) structure: the model's optimizer is the code's optimizer
     with ctx.timer("trees"):
         itree, _ = C.run_harness_resilient(texe, [], [t.encode().hex() for t in src], timeout=600)
+    # the model prints eval("...") without its text and without the unused-result flag
+    itree = [re.sub(r"\(ucall \(id eval\)", "(call (id eval)", re.sub(r"\(str \?[0-9a-f]*\)", "(str ?)", o)) for o in itree]
     tdiff_opt = tdiff_no = 0
     changed = 0
     suspects = set()
@@ -103,11 +110,18 @@ def run(ctx):
     ctx.cov["harness_restarts"] = r1 + r2
     labels = ["fault@%d/%s :: %s" % (k, kind, t[:700]) for (k, kind), t in zip(faults, src)]
     lines = ["model=%s\tspec=%s" % (strip_tags(C.split_model_line(m).get("model", m)), n) for m, n in zip(mopt, ino)]
-    found = C.compare_streams(ctx, "evalprog", labels, lines, io,
+    found = C.compare_streams(ctx, "evalprog", labels, lines, io, canon_model=lambda x, line: x,
+                              skip=lambda spec, model, line: big_ints(spec) or big_ints(model),
                               nontrivial=lambda impl, line: True, bucket=lambda line: "generated")
+    # runs that leave the model's integer range are still compared engine against engine
+    for lab, m, a, b in zip(labels, mopt, io, ino):
+        if (big_ints(m) or big_ints(b)) and a != b:
+            found += 1
+            if found <= 5:
+                ctx.violation("input", {"mode": "evalprog", "case": lab, "optimized": a, "unoptimized": b})
     nd = 0
     for lab, m, n in zip(labels, mno, ino):
-        if strip_tags(C.split_model_line(m).get("model", m)) != n:
+        if strip_tags(C.split_model_line(m).get("model", m)) != n and not (big_ints(m) or big_ints(n)):
             nd += 1
             if nd <= 2:
                 ctx.notes.append("unoptimized: model %s / impl %s :: %s" % (C.split_model_line(m).get("model", m)[:200], n[:200], lab[:300]))
